@@ -255,6 +255,16 @@ func (d *Driver) judgeC01() {
 								foundLeader = true
 							}
 						}
+						// ... or whether an acquisition of the instance that was in flight when the call came
+						// wrote the record during the call (the instance then owns a record it never led
+						// on, and a graceful shutdown releases it - since the library repair for C09's
+						// last clause): the deletion is the shutdown of an owner that may have been replaced
+						// without noticing, i.e. the recorded finding, not a deletion by a bystander
+						for _, w := range d.h.Ops {
+							if w.Inst == op.Inst && w.Gen == op.Gen && (w.Kind == "create" || w.Kind == "update") && w.OK && w.New != nil && w.SInvoke <= a.SInv+1 && w.SRet >= a.SInv && w.SRet <= op.SInvoke && w.Err == nil {
+								foundLeader = true
+							}
+						}
 					}
 				}
 				if calls > 0 && !foundLeader {
